@@ -1,12 +1,5 @@
-import B2Z.RegionsThm
+import B2Z.Proofs.RegionsThm
 namespace B2Z.Regions
-
-/-- trailing contigs: those after the last selected entry whose index count is positive or unknown -/
-def tail (lastC nContigs : Nat) (hasRecs : Nat → Bool) : List Reg :=
-  ((List.range' (lastC + 1) (nContigs - (lastC + 1))).filter hasRecs).map Reg.whole
-
-def regions (es : List Entry) (lastC nContigs : Nat) (hasRecs : Nat → Bool) : List Reg :=
-  body es ++ tail lastC nContigs hasRecs
 
 theorem flatMap_filter_of_empty {α β : Type} (l : List α) (p : α → Bool) (f : α → List β)
     (h : ∀ x ∈ l, p x = false → f x = []) : (l.filter p).flatMap f = l.flatMap f := by
